@@ -10,7 +10,6 @@
 -/
 import CoseModel.Headers
 import CoseProofs.Lemmas.Sort
-import CoseProofs.Lemmas.Head
 namespace CoseModel
 
 /-! ### normalised labels -/
